@@ -31,7 +31,7 @@ for k in sorted(rows, key=skey):
 rp = os.path.join(HERE, 'seeded', 'RESULTS.json')
 if os.path.exists(rp):
     R = json.load(open(rp))
-    out += ['', '## 2. Independently written breaks (seeded/<ID>-<A..J>/, five rounds of fresh sub-agents given only the property record and what had been tried before)\n',
+    out += ['', '## 2. Independently written breaks (seeded/<ID>-<A..K>/, six rounds of fresh sub-agents given only the property record and what had been tried before)\n',
             'Columns: demo on clean tree / demo with patch (exit codes), baseline with patch, verdict of `bin/check <ID> --tier quick` on the patched copy.\n',
             '| seeded | files | needs to manifest (author) | demo clean/patched | baseline | check | mechanism key(s) |', '|---|---|---|---|---|---|---|']
     for n in sorted(R, key=lambda x: (x.split('-')[0], x.split('-')[1])):
